@@ -1175,7 +1175,100 @@ def controller_case(ctx, rng, idx):
             ctx.count('reconfiguration_steps')
 
 
+def filter_posterior_case(ctx, rng, idx):
+    """PopulationFilterLogPosterior: count, names, per-parameter IDs, a
+    point of the published layout and the gradient have one length; the IDs
+    follow the published layout (population level: None; then n_hdim
+    entries per simulated individual; then n_observables * n_times noise
+    entries per simulated individual)"""
+    from checks import c13
+    try:
+        case = c13.FPCase(rng, idx)
+        post = case.build()
+    except c13.Rejected as e:
+        ctx.reject(str(e))
+        return
+    except Exception as e:      # noqa
+        ctx.violation_exc('construction_raises', e, {})
+        return
+    feats = {'family': 'filter_posterior', 'filter': case.fname,
+             'n_outputs': case.n_out, 'n_times': case.n_times,
+             'n_simulated': case.n_s, 'sigma_free': case.sigma_free,
+             'mode': case.mode, 'leaves': [GP.leaf_code(l)
+                                           for l in case.leaves]}
+    ctx.case(('filter_posterior', case.fname, case.n_out, case.sigma_free,
+              case.mode), True, sample=feats)
+    ctx.count('reconfiguration_steps')
+    ctx.count('invariant_evaluations')
+    ctx.count('hierarchical_objects_checked')
+    try:
+        n = post.n_parameters()
+        names = post.get_parameter_names()
+        top_names = post.get_parameter_names(exclude_bottom_level=True)
+        ids = post.get_id()
+        uniq = post.get_id(unique=True)
+    except Exception as e:      # noqa
+        ctx.violation_exc('accessor_raises', e, {'case': feats}, feats)
+        return
+    try:
+        with_ids = post.get_parameter_names(include_ids=True)
+    except Exception as e:      # noqa
+        with_ids = []
+        if len(ids) == len(names):
+            ctx.violation_exc('accessor_raises', e, {'case': feats}, feats)
+            return
+    h = case.h
+    n_noise = case.n_out * case.n_times
+    want_n = case.n_top + case.n_s * (h.n_bottom // case.n_s + n_noise)
+    prob = []
+    if not (n == len(names) == len(ids) == len(with_ids) == want_n):
+        prob.append('n_parameters=%s names=%s ids=%s names with ids=%s '
+                    'layout=%s' % (n, len(names), len(ids), len(with_ids),
+                                   want_n))
+    if len(top_names) != case.n_top:
+        prob.append('top-level names %d, expected %d' % (
+            len(top_names), case.n_top))
+    if len(uniq) != case.n_s:
+        prob.append('unique ids %d, simulated individuals %d' % (
+            len(uniq), case.n_s))
+    if not prob:
+        hd = h.n_bottom // case.n_s
+        want_ids = [None] * case.n_top
+        for u in uniq:
+            want_ids += [u] * hd
+        for u in uniq:
+            want_ids += [u] * n_noise
+        if list(ids) != want_ids:
+            prob.append('ids do not follow the published layout')
+        for k, (nm, i_, w) in enumerate(zip(names, ids, with_ids)):
+            if w != (nm if i_ is None else '%s %s' % (i_, nm)):
+                prob.append('name with id at %d: %r' % (k, w))
+                break
+    if prob:
+        _bad(ctx, 'filter_posterior_counts', {'problems': prob,
+                                              'case': feats}, feats)
+        return
+    try:
+        x = np.real(case.point(rng))
+        if len(x) != n:
+            _bad(ctx, 'filter_posterior_counts',
+                 {'problems': ['vector of the published layout has %d '
+                               'entries, n_parameters=%d' % (len(x), n)]},
+                 feats)
+            return
+        v = post(x)
+        s, g = post.evaluateS1(x)
+        ctx.count('gradient_lengths_checked')
+        if np.shape(g) != (n,):
+            _bad(ctx, 'gradient_length',
+                 {'shape': np.shape(g), 'expected': n}, feats)
+    except Exception as e:      # noqa
+        ctx.violation_exc('evaluation_raises', e, {'case': feats}, feats)
+
+
 FAMILIES = [
+    Family('filter_posterior', filter_posterior_case, quick=150,
+           thorough=1500),
     Family('pop_random', pop_random_case, quick=1500, thorough=25000),
     Family('pop_exhaustive', pop_exhaustive_case, quick=len(_HIST3) * 6,
            thorough=len(_HIST3) * 120),
